@@ -599,8 +599,21 @@ pub fn c04_script(r: &mut Rng, index: u64, _tier: Tier) -> (CaseCfg, Vec<Step>) 
         let mut props = vec![Prop::MaximumPacketSize(*r.pick(&[1u32, 2, 3, 4, 6])), Prop::ReceiveMaximum(1), Prop::MaximumQoS(0)];
         r.shuffle(&mut props);
         props.truncate(1 + r.below(3));
+        let tiny = props.iter().any(|p| matches!(p, Prop::MaximumPacketSize(m) if *m < 5));
         let mut s = vec![connect_with(SpMode::Force(false), AckMode::Hold, props)];
         s.push(poll0());
+        let pid = *r.pick(&[1u16, 9, 65535]);
+        // half of the time a QoS 1 / QoS 2 PUBLISH arrives already on the restricted connection:
+        // under a limit below 5 bytes its acknowledgement cannot be sent and the connection ends
+        // with the message neither delivered nor acknowledged; the broker sends it again (DUP)
+        // on the next connection, where it is delivered like any first delivery
+        let early = r.chance(1, 2);
+        let early_qos = 1 + r.below(2) as u8;
+        if early {
+            s.push(Step::Broker(BrokerAct::Send(SPacket::Publish { dup: false, qos: early_qos, retain: false, topic: "early".into(), pid: Some(pid.wrapping_add(7).max(1)), props: vec![], payload: vec![7, 7] })));
+            s.push(poll0());
+            s.push(poll0());
+        }
         s.push(match r.below(3) {
             0 => Step::DropConn,
             1 => Step::Disconnect(DiscSpec { reason: None, props: None, cancel_at: None }),
@@ -608,8 +621,13 @@ pub fn c04_script(r: &mut Rng, index: u64, _tier: Tier) -> (CaseCfg, Vec<Step>) 
         });
         s.push(poll0());
         s.push(Step::DropConn);
-        s.push(connect_with(SpMode::Force(r.chance(1, 2)), AckMode::Hold, vec![]));
-        let pid = *r.pick(&[1u16, 9, 65535]);
+        let resumed = r.chance(1, 2) || (early && tiny);
+        s.push(connect_with(SpMode::Force(resumed), AckMode::Hold, vec![]));
+        if early && tiny && resumed {
+            s.push(Step::Broker(BrokerAct::Send(SPacket::Publish { dup: true, qos: early_qos, retain: false, topic: "early".into(), pid: Some(pid.wrapping_add(7).max(1)), props: vec![], payload: vec![7, 7] })));
+            s.push(poll0());
+            s.push(poll0());
+        }
         for k in 0..3u16 {
             let qos = 1 + r.below(2) as u8;
             let id = pid.wrapping_add(k).max(1);
